@@ -59,7 +59,7 @@ class C17Hook:
         if len([s for s in rec["sources"] if s.get("sidx") is None]) != len(op["paths"]) and not rec.get("abandoned"):
             run.violation("C17-order", ts.ti, oi, "$sources", len(op["paths"]), len(rec["sources"]))
         for si, s in enumerate(rec["sources"]):
-            opts = ts.spec["streams"][s["sidx"] if s.get("sidx") is not None else op["s"]]["o"]
+            opts = ts.cur_opts[s["sidx"] if s.get("sidx") is not None else op["s"]]
             mem = s.get("mem")
             text, why = (mem["text"], "ok") if mem is not None else readable(fs, s["path"])
             uri = mem["uri"] if mem is not None else s["path"]
@@ -304,6 +304,9 @@ def gen_hist(rng):
             ops.insert(at, {"op": "write", "path": p, "text": text})
             ops.insert(at + 1, {"op": "stream", "s": ops[at - 1]["s"], "paths": [p], "consumer": {"k": "drain"}})
             labels.append("rewrite:" + label)
+    if len(ops) > 1 and rng.random() < 0.15:
+        at = rng.randint(1, len(ops) - 1)
+        ops.insert(at, {"op": "setopts", "s": rng.randrange(nstreams), "o": ALL_OPTS[rng.randrange(8)], "how": rng.choice(["mutate", "replace"])})
     if rng.random() < 0.2:
         good = [p for p in paths if p in files and p not in faults]
         if good:
